@@ -64,6 +64,9 @@ type Interp struct {
 	condStk  []*Err
 	CondIDs  []int // error identities seen by (host-cond ...), 0 = none pending
 	curNode  int
+	// Sources maps a source text to its forms, for load-string (the reference
+	// has no reader of its own: the generator supplies text and forms).
+	Sources map[string][]*V
 	// Unsupported is set when the program used a construct the reference does
 	// not model exactly; the comparison is then skipped (counted).
 	Unsupported string
